@@ -1189,7 +1189,9 @@ def main():
     sys.path.insert(0, os.path.dirname(os.path.abspath(__file__)))
     import ctx2lean   # the state machine (statement-level translation); shares this module's helpers
     import codec2lean  # the frame codec, same machinery
-    gens = GENERATORS + [('Ctx.lean', ctx2lean.gen_ctx), ('CodecGen.lean', codec2lean.gen_codec)]
+    import hs2lean     # the handshake machine
+    gens = GENERATORS + [('Ctx.lean', ctx2lean.gen_ctx), ('CodecGen.lean', codec2lean.gen_codec),
+                         ('HsGen.lean', hs2lean.gen_hs)]
     for name, fn in gens:
         try:
             text = fn(repo)
